@@ -41,4 +41,10 @@ CHECKS = {
         "level_note": "Trusts the source model's resolution rule for inline references (own entries first, then system; key+POS+reading) and the CSV renderer.",
         "technique": "reference-model monitor over compile->load round trips; differential monitor across alignments and repeated compilation",
     },
+    "C03": {
+        "level_text": "Exploration with sanitizers: hostile inputs and limit-length inputs are run through reused tokenizers in a debug-assertion/overflow-check build and a release build, with a panic hook, exit-status monitor, bounds monitors at the matrix/trie/table hooks, an expected-outcome oracle for the two length limits and a partition check of every Ok result; valgrind memcheck (quick) and ASan + Miri (thorough) watch the same workload on reduced sets.",
+        "design_ref": "DESIGN.md 6/C03",
+        "level_note": "Red-zone tools cannot see intra-allocation overruns (matrix/trie live inside the dictionary buffer) - hooks and debug assertions cover those; odd-address loads give real allocation boundaries. Known findings D9, D10, D19 are reported as KNOWN-FINDING.",
+        "technique": "panic/exit-status monitors + bounds hooks + expected-outcome oracle under hostile workloads; valgrind, ASan, Miri stages",
+    },
 }
